@@ -1,5 +1,6 @@
 import NetVerif.Proofs.Lemmas.Hpack
 import NetVerif.Proofs.C04
+import NetVerif.Model.HpackU32
 /-!
 C02 — the HPACK decoder is safe and honours its limits on any input.
 
@@ -861,6 +862,306 @@ theorem close_truncated (d : Decoder) (h : d.saveBuf ≠ []) :
 theorem close_clean (d : Decoder) (h : d.saveBuf = []) :
     d.close.2 = none ∧ d.close.1.firstField = true := by
   simp [Decoder.close, h]
+
+/-! ### Go's `uint32` size arithmetic
+
+`dynamicTable.size`, `maxSize` and `HeaderField.Size()` are `uint32` in Go; the model uses `Nat`.
+The two agree exactly as long as `size + Size(entry)` stays below 2^32 when an entry is added
+(guaranteed by `maxSize + Size(entry) < 2^32`, since `size ≤ maxSize`); eviction never underflows
+because `size` is the sum of the entry sizes. -/
+
+theorem entrySize32_eq (e : Entry) (h : entrySize e < 2 ^ 32) : entrySize32 e = entrySize e := by
+  unfold entrySize32 u32 entrySize at *
+  exact Nat.mod_eq_of_lt h
+
+theorem evictLoop32_eq (maxSize : Nat) : ∀ (l : List Entry) (size : Nat), size = sizeSum l → size < 2 ^ 32 →
+    evictLoop32 maxSize l size = evictLoop maxSize l size := by
+  intro l
+  induction l with
+  | nil => intro size _ _; rfl
+  | cons e rest ih =>
+    intro size hs hlt
+    simp only [sizeSum, List.map_cons, List.sum_cons] at hs
+    have he : entrySize e ≤ size := by omega
+    have he32 : entrySize32 e = entrySize e := entrySize32_eq e (by omega)
+    simp only [evictLoop32, evictLoop, he32]
+    have hsub : u32 (size + 2 ^ 32 - entrySize e) = size - entrySize e := by
+      unfold u32
+      rw [show size + 2 ^ 32 - entrySize e = (size - entrySize e) + 1 * 2 ^ 32 by omega,
+        Nat.add_mul_mod_self_right, Nat.mod_eq_of_lt (by omega)]
+    rw [hsub]
+    split
+    · exact ih _ (by simp only [sizeSum]; omega) (by omega)
+    · rfl
+
+/-- `evict` in `uint32` = `evict` in `Nat` (no underflow) when `size` is the sum of the entry sizes. -/
+theorem evict32_eq (dt : DynTable) (h : dt.size = sizeSum dt.ents) (hlt : dt.size < 2 ^ 32) :
+    dt.evict32 = dt.evict := by
+  unfold DynTable.evict32 DynTable.evict
+  rw [evictLoop32_eq dt.maxSize dt.ents.reverse dt.size (by rw [sizeSum_reverse]; exact h) hlt]
+
+theorem setMaxSize32_eq (dt : DynTable) (v : Nat) (h : TableInv dt) (hlt : dt.size < 2 ^ 32) :
+    dt.setMaxSize32 v = dt.setMaxSize v :=
+  evict32_eq _ h.1 hlt
+
+/-- **`add` in `uint32` = `add` in `Nat`** (no wrap of `size += Size()`, no underflow in `evict`)
+whenever the new total stays below 2^32. -/
+theorem add32_eq (dt : DynTable) (e : Entry) (h : TableInv dt) (hlt : dt.size + entrySize e < 2 ^ 32) :
+    dt.add32 e = dt.add e := by
+  unfold DynTable.add32 DynTable.add
+  have he32 : entrySize32 e = entrySize e := entrySize32_eq e (by omega)
+  have hadd : u32 (dt.size + entrySize32 e) = dt.size + entrySize e := by
+    rw [he32]; exact Nat.mod_eq_of_lt hlt
+  rw [hadd]
+  apply evict32_eq
+  · simp only [sizeSum, List.map_cons, List.sum_cons]
+    have := h.1
+    simp only [sizeSum] at this
+    omega
+  · exact hlt
+
+/-- In particular: with `maxSize + Size(entry) < 2^32` (e.g. `maxSize ≤ 2^31` and entries below 2 GiB)
+no `uint32` operation of the dynamic table wraps. -/
+theorem add32_eq_of_maxSize (dt : DynTable) (e : Entry) (h : TableInv dt)
+    (hlt : dt.maxSize + entrySize e < 2 ^ 32) : dt.add32 e = dt.add e :=
+  add32_eq dt e h (by have := h.2; omega)
+
+/-- The bound is sharp in the sense that without it `size += Size()` does wrap: a table at
+`size = maxSize = 2^32 - 1` … adding any entry overflows the `uint32` counter. -/
+example : u32 ((2 ^ 32 - 1) + entrySize32 ([], [])) = 31 := by decide
+
+/-! ### `PErr.internal` is never produced
+
+`internal` is returned by the model only at its two guards (fuel exhausted, a representation that
+consumed nothing). No parser and no state step produces it, every parsed representation consumes
+input, and `Write` starts the loop with `len(buf)+1` fuel, so neither guard is ever reached. -/
+
+/-- Every error a parser can return satisfies `S`. -/
+def ErrIn {α : Type} (S : PErr → Prop) (p : Parser α) : Prop := ∀ buf e, p buf = .error e → S e
+
+theorem errIn_pure {α : Type} (S : PErr → Prop) (a : α) : ErrIn S (Parser.pure a) := by
+  intro buf e h; simp [Parser.pure] at h
+
+theorem errIn_fail {α : Type} (S : PErr → Prop) (e : PErr) (he : S e) : ErrIn S (Parser.fail e : Parser α) := by
+  intro buf e' h
+  simp only [Parser.fail, Except.error.injEq] at h
+  rw [← h]; exact he
+
+theorem errIn_bind {α β : Type} (S : PErr → Prop) (p : Parser α) (f : α → Parser β)
+    (hp : ErrIn S p) (hf : ∀ a, ErrIn S (f a)) : ErrIn S (p.bind f) := by
+  intro buf e h
+  simp only [Parser.bind] at h
+  cases hpb : p buf with
+  | error e' => rw [hpb] at h; simp only [Except.error.injEq] at h; rw [← h]; exact hp buf e' hpb
+  | ok ar =>
+    obtain ⟨a, r⟩ := ar
+    rw [hpb] at h
+    exact hf a r e h
+
+def NotInternal (e : PErr) : Prop := e ≠ .internal
+
+theorem errIn_readVarIntLoop : ∀ (p : Bytes) (i m : Nat) (e : PErr),
+    readVarIntLoop p i m = .error e → NotInternal e := by
+  intro p
+  induction p with
+  | nil => intro i m e h; simp only [readVarIntLoop, Except.error.injEq] at h; rw [← h]; simp [NotInternal]
+  | cons b p ih =>
+    intro i m e h
+    simp only [readVarIntLoop] at h
+    split at h
+    · simp at h
+    · split at h
+      · simp only [Except.error.injEq] at h; rw [← h]; simp [NotInternal]
+      · exact ih _ _ _ h
+
+theorem errIn_readVarInt (n : Nat) : ErrIn NotInternal (readVarInt n) := by
+  intro buf e h
+  cases buf with
+  | nil => simp only [readVarInt, Except.error.injEq] at h; rw [← h]; simp [NotInternal]
+  | cons b p =>
+    simp only [readVarInt] at h
+    generalize (if n < 8 then b % 2 ^ n else b) = i at h
+    split at h
+    · simp at h
+    · exact errIn_readVarIntLoop _ _ _ _ h
+
+theorem errIn_readString (m : Nat) : ErrIn NotInternal (readString m) := by
+  intro buf e h
+  cases buf with
+  | nil => simp only [readString, Except.error.injEq] at h; rw [← h]; simp [NotInternal]
+  | cons b0 p =>
+    simp only [readString] at h
+    cases hr : readVarInt 7 (b0 :: p) with
+    | error e' =>
+      rw [hr] at h
+      simp only [Except.error.injEq] at h
+      rw [← h]; exact errIn_readVarInt 7 _ _ hr
+    | ok ar =>
+      obtain ⟨strLen, p'⟩ := ar
+      rw [hr] at h
+      simp only at h
+      split at h
+      · simp only [Except.error.injEq] at h; rw [← h]; simp [NotInternal]
+      · split at h
+        · simp only [Except.error.injEq] at h; rw [← h]; simp [NotInternal]
+        · simp at h
+
+theorem errIn_parseLiteral (d : DecCore) (n : Nat) (it : IndexType) : ErrIn NotInternal (parseLiteral d n it) := by
+  unfold parseLiteral
+  apply errIn_bind _ _ _ (errIn_readVarInt n)
+  intro nameIdx
+  split
+  · split
+    · exact errIn_fail _ _ (by simp [NotInternal])
+    · apply errIn_bind _ _ _ (errIn_readString _)
+      intro uv; exact errIn_pure _ _
+  · apply errIn_bind _ _ _ (errIn_readString _)
+    intro un
+    apply errIn_bind _ _ _ (errIn_readString _)
+    intro uv; exact errIn_pure _ _
+
+theorem errIn_parseAction (d : DecCore) : ErrIn NotInternal (parseAction d) := by
+  intro buf e h
+  cases buf with
+  | nil => simp only [parseAction, Except.error.injEq] at h; rw [← h]; simp [NotInternal]
+  | cons b p =>
+    simp only [parseAction] at h
+    have hidx : ErrIn NotInternal ((readVarInt 7).bind fun idx =>
+        match d.at idx with
+        | none => (Parser.fail .invalidIndex : Parser Action)
+        | some e => Parser.pure (.indexed e)) := by
+      apply errIn_bind _ _ _ (errIn_readVarInt 7)
+      intro idx
+      split
+      · exact errIn_fail _ _ (by simp [NotInternal])
+      · exact errIn_pure _ _
+    have hupd : ErrIn NotInternal ((readVarInt 5).bind fun size =>
+        if size > d.dyn.allowedMaxSize then (Parser.fail .tableUpdateTooLarge : Parser Action)
+        else Parser.pure (.sizeUpdate size)) := by
+      apply errIn_bind _ _ _ (errIn_readVarInt 5)
+      intro size
+      split
+      · exact errIn_fail _ _ (by simp [NotInternal])
+      · exact errIn_pure _ _
+    split at h
+    · exact hidx _ _ h
+    · split at h
+      · exact errIn_parseLiteral d 6 .indexedTrue _ _ h
+      · split at h
+        · exact errIn_parseLiteral d 4 .indexedFalse _ _ h
+        · split at h
+          · exact errIn_parseLiteral d 4 .indexedNever _ _ h
+          · split at h
+            · split at h
+              · simp only [Except.error.injEq] at h; rw [← h]; simp [NotInternal]
+              · exact hupd _ _ h
+            · simp only [Except.error.injEq] at h; rw [← h]; simp [NotInternal]
+
+theorem decodeString_err (m : Nat) (u : UString) (e : PErr) (h : decodeString m u = .error e) :
+    NotInternal e := by
+  unfold decodeString at h
+  split at h
+  · simp at h
+  · split at h
+    · simp at h
+    · simp only [Except.error.injEq] at h; rw [← h]; simp [NotInternal]
+    · simp only [Except.error.injEq] at h; rw [← h]; simp [NotInternal]
+
+theorem finishEmit_err (d : DecCore) (hf : Field) (e : PErr) (d' : DecCore)
+    (h : finishEmit d hf = .err e d') : NotInternal e := by
+  unfold finishEmit at h
+  cases hc : callEmit d hf with
+  | ok em => rw [hc] at h; simp at h
+  | error e' =>
+    rw [hc] at h
+    simp only [ApplyRes.err.injEq] at h
+    unfold callEmit at hc
+    split at hc
+    · simp only [Except.error.injEq] at hc; rw [← h.1, ← hc]; simp [NotInternal]
+    · simp at hc
+
+theorem applyAction_err (d : DecCore) (a : Action) (e : PErr) (d' : DecCore)
+    (h : applyAction d a = .err e d') : NotInternal e := by
+  cases a with
+  | indexed en => exact finishEmit_err _ _ _ _ h
+  | sizeUpdate s => simp [applyAction] at h
+  | literal it tn un uv =>
+    simp only [applyAction] at h
+    split at h
+    · rename_i e' hname
+      simp only [ApplyRes.err.injEq] at h
+      rw [← h.1]
+      split at hname
+      · simp at hname
+      · split at hname
+        · exact decodeString_err _ _ _ hname
+        · simp at hname
+    · split at h
+      · rename_i e' hval
+        simp only [ApplyRes.err.injEq] at h
+        rw [← h.1]
+        split at hval
+        · exact decodeString_err _ _ _ hval
+        · simp at hval
+      · exact finishEmit_err _ _ _ _ h
+
+theorem parseRepr_err_notInternal (d : DecCore) (buf : Bytes) (e : PErr) (d' : DecCore)
+    (h : parseRepr d buf = .err e d') : NotInternal e := by
+  unfold parseRepr at h
+  cases hp : parseAction d buf with
+  | error e' =>
+    rw [hp] at h
+    have := errIn_parseAction d buf e' hp
+    cases e' <;> simp at h <;> (rw [← h.1]; exact this)
+  | ok ar =>
+    obtain ⟨a, r⟩ := ar
+    rw [hp] at h
+    simp only at h
+    cases ha : applyAction d a with
+    | ok d1 em1 => rw [ha] at h; simp at h
+    | err e1 d1 =>
+      rw [ha] at h
+      simp only [PRes.err.injEq] at h
+      rw [← h.1]
+      exact applyAction_err d a e1 d1 ha
+
+theorem writeLoop_no_internal (par : Bool) : ∀ (f : Nat) (d : DecCore) (buf : Bytes) (em : List Field),
+    buf.length < f → (writeLoop par f d buf em).2.2 ≠ .err .internal := by
+  intro f
+  induction f with
+  | zero => intro d buf em h; omega
+  | succ f ih =>
+    intro d buf em h
+    simp only [writeLoop]
+    split
+    · simp
+    · cases hp : parseRepr d buf with
+      | needMore => simp only; split <;> simp
+      | err e d' =>
+        simp only [ne_eq, LoopEnd.err.injEq]
+        exact parseRepr_err_notInternal d buf e d' hp
+      | ok d' rest e =>
+        have := parseRepr_consumes d buf d' rest e hp
+        simp only [this, ↓reduceIte]
+        exact ih _ _ _ (by omega)
+
+/-- **C02.** `Decoder.Write` never returns the model's artificial `internal` error: the fuel and
+progress guards of the loop are dead code, i.e. the total model has no hidden failure mode. -/
+theorem write_no_internal (d : Decoder) (p : Bytes) : (d.write p).2.2 ≠ some .internal := by
+  by_cases hp : p = []
+  · subst hp; simp [Decoder.write, Decoder.writeG]
+  · unfold Decoder.write
+    rw [writeG_eq true d p hp]
+    have := writeLoop_no_internal true ((d.saveBuf ++ p).length + 1) d.toDecCore (d.saveBuf ++ p) [] (by omega)
+    unfold finishWrite
+    cases hr : (writeLoop true ((d.saveBuf ++ p).length + 1) d.toDecCore (d.saveBuf ++ p) []).2.2 with
+    | saved l => simp
+    | err e =>
+      rw [hr] at this
+      simpa using this
+
+theorem close_no_internal (d : Decoder) : d.close.2 ≠ some .internal := by
+  unfold Decoder.close; split <;> simp
 
 /-! ### Non-vacuity -/
 
